@@ -61,3 +61,106 @@ def ndarray_layout():
             print('REPLAY: VIOLATION-CONFIRMED different arrays share a hash')
             return
     print('REPLAY: not reproduced')
+
+
+def generic_normalisation():
+    """numpy scalars hash like the equal Python scalars"""
+    import numpy
+    from nutils import types
+    pairs = [(numpy.bool_(True), True), (numpy.bool_(False), False), (numpy.int8(-3), -3), (numpy.int64(7), 7), (numpy.int32(0), 0),
+             (numpy.float32(1.5), 1.5), (numpy.float64(-0.25), -0.25), (numpy.complex64(1 + 2j), 1 + 2j), (numpy.complex128(3j), 3j)]
+    for np_value, py_value in pairs:
+        try:
+            h = types.nutils_hash(np_value)
+        except Exception as e:
+            print('nutils_hash(%s(%r)) raises %s: %s' % (type(np_value).__name__, np_value, type(e).__name__, e))
+            print('REPLAY: VIOLATION-CONFIRMED a numpy scalar of a supported kind cannot be hashed')
+            return
+        if h != types.nutils_hash(py_value):
+            print('nutils_hash(%s(%r)) != nutils_hash(%r)' % (type(np_value).__name__, np_value, py_value))
+            print('REPLAY: VIOLATION-CONFIRMED a numpy scalar does not hash like the equal Python scalar')
+            return
+    print('REPLAY: not reproduced')
+
+
+def unsigned_generic():
+    """candidate defect: unsigned numpy scalars"""
+    import numpy
+    from nutils import types
+    try:
+        ok = types.nutils_hash(numpy.uint8(3)) == types.nutils_hash(3)
+    except Exception as e:
+        print('nutils_hash(numpy.uint8(3)) raises %s: %s' % (type(e).__name__, e))
+        print('REPLAY: VIOLATION-CONFIRMED an unsigned numpy scalar cannot be hashed (arraydata accepts kind u)')
+        return
+    print('REPLAY: not reproduced' if ok else 'REPLAY: VIOLATION-CONFIRMED uint8(3) does not hash like 3')
+
+
+def _collide(table, what):
+    seen = {}
+    for key, h in table:
+        if h in seen and seen[h] != key:
+            print('%s: %r and %r share the nutils hash %s' % (what, seen[h], key, h.hex()[:12]))
+            print('REPLAY: VIOLATION-CONFIRMED two values that behave differently share a hash')
+            return True
+        seen[h] = key
+    return False
+
+
+def method_branch():
+    from nutils import types
+
+    class A(types.Immutable):
+        def __init__(self, x):
+            self.x = x
+
+        def f(self):
+            return self.x
+
+        def g(self):
+            return -self.x
+
+        def fg(self):
+            return 0
+    table = [((x, name), types.nutils_hash(getattr(A(x), name))) for x in (1, 2, 'f') for name in ('f', 'g', 'fg')]
+    if _collide(table, 'bound methods (instance argument, method name)'):
+        return
+    if types.nutils_hash(A(1).f) != types.nutils_hash(A(1).f):
+        print('REPLAY: VIOLATION-CONFIRMED the hash of a bound method is not stable')
+        return
+    print('REPLAY: not reproduced')
+
+
+def dataclass_branch():
+    import dataclasses
+    from nutils import types
+
+    @dataclasses.dataclass(frozen=True)
+    class P:
+        a: int
+        b: int
+        c: str = 'x'
+    vals = [P(1, 2), P(2, 1), P(1, 1), P(2, 2), P(1, 2, 'y'), P(1, 2, 'a'), P('x', 2, 1), P(1, 'x', 2)]
+    table = [((v.a, v.b, v.c), types.nutils_hash(v)) for v in vals]
+    if _collide(table, 'dataclass instances (a, b, c)'):
+        return
+    if types.nutils_hash(P(1, 2)) != types.nutils_hash(P(b=2, a=1)):
+        print('REPLAY: VIOLATION-CONFIRMED equal dataclass instances hash differently')
+        return
+    print('REPLAY: not reproduced')
+
+
+def multiset():
+    from nutils import types
+    base = ['a', 'b', 'c']
+    table = []
+    for ca in range(1, 4):
+        for cb in range(1, 4):
+            ms = types.frozenmultiset(['a'] * ca + ['b'] * cb + ['c'])
+            table.append(((ca, cb, 1), types.nutils_hash(ms)))
+    table.append(((1, 0, 1), types.nutils_hash(types.frozenmultiset(['a', 'c']))))
+    table.append(((12, 1, 1), types.nutils_hash(types.frozenmultiset(['a'] * 12 + ['b', 'c']))))
+    table.append(((1, 12, 1), types.nutils_hash(types.frozenmultiset(['b'] * 12 + ['a', 'c']))))
+    if _collide(table, 'frozenmultisets with multiplicities of (a, b, c)'):
+        return
+    order_independence()
